@@ -876,13 +876,22 @@ func childCtl() int {
 
 // ---------------------------------------------------------------- child: free-running stress
 
-func childStress(seed uint64, n int, maxNodes int) int {
+func childStress(seed uint64, n int, maxNodes int, fixed string) int {
 	w := bufio.NewWriterSize(os.Stdout, 1<<20)
 	defer w.Flush()
 	rg := &rng{seed}
 	limit := runtime.NumCPU()
 	for i := 0; i < n; i++ {
 		g := genGraph(rg, 1+rg.below(maxNodes), 0)
+		if fixed != "" {
+			fg, err := parseParams(fixed)
+			if err != nil {
+				fmt.Fprintf(w, "E\t%v\n", err)
+				return 2
+			}
+			fg.cap = 0
+			g = fg
+		}
 		r := newRun(g, nil, limit)
 		r.spin = &rng{rg.next()}
 		var live int32
@@ -1100,8 +1109,11 @@ func (p *parent) runJobs(jobs []job, perChild int, limit time.Duration) {
 	}
 }
 
-func (p *parent) runStress(seed uint64, cpus string, n, maxNodes int, limit time.Duration) {
+func (p *parent) runStress(seed uint64, cpus string, n, maxNodes int, limit time.Duration, fixed string) {
 	args := []string{"-child", "stress", "-seed", strconv.FormatUint(seed, 10), "-n", strconv.Itoa(n), "-maxnodes", strconv.Itoa(maxNodes)}
+	if fixed != "" {
+		args = append(args, "-params", fixed)
+	}
 	var cmd *exec.Cmd
 	if _, err := exec.LookPath("taskset"); err == nil {
 		cmd = exec.Command("taskset", append([]string{"-c", cpus, p.exe}, args...)...)
@@ -1137,6 +1149,7 @@ func main() {
 	maxNodes := flag.Int("maxnodes", 12, "")
 	schedFile := flag.String("sched", "", "model-supplied schedules: lines `<params> <t1.t2...>`")
 	replay := flag.String("replay", "", "json: {params, mode, schedule|cpus}")
+	fixedParams := flag.String("params", "", "stress child: run this graph every time")
 	dumpJobs := flag.Bool("dumpjobs", false, "print the controlled jobs of this tier and seed instead of running them")
 	flag.Parse()
 
@@ -1144,7 +1157,7 @@ func main() {
 	case "ctl":
 		os.Exit(childCtl())
 	case "stress":
-		os.Exit(childStress(*seed, *n, *maxNodes))
+		os.Exit(childStress(*seed, *n, *maxNodes, *fixedParams))
 	}
 	exe, _ := os.Executable()
 	out := bufio.NewWriterSize(os.Stdout, 1<<20)
@@ -1166,13 +1179,11 @@ func main() {
 			p.runJobs([]job{{Stream: "runner.replay", Params: in.Params, Strat: "guide", Guide: in.Schedule}}, 1, time.Minute)
 		} else {
 			// a free-running failure is replayed by repeating the same graph on the same number of CPUs
-			g, err := parseParams(in.Params)
-			if err != nil {
-				fmt.Fprintln(os.Stderr, err)
-				os.Exit(2)
+			cpus := "0"
+			if in.Cpus > 1 {
+				cpus = "0-" + strconv.Itoa(in.Cpus-1)
 			}
-			_ = g
-			fmt.Fprintln(os.Stderr, "stress replays are statistical: rerun `-tier quick` with the same seed")
+			p.runStress(*seed, cpus, 3000, 1, 60*time.Second, in.Params)
 		}
 		return
 	}
@@ -1280,7 +1291,7 @@ func main() {
 		sn, smax, sl = 4000, 40, 100*time.Second
 	}
 	for _, cpus := range []string{"0", "0-1", "0-15"} {
-		p.runStress(rg.next(), cpus, sn, smax, sl)
+		p.runStress(rg.next(), cpus, sn, smax, sl, "")
 	}
 
 	p.stats["wall_ms"] = int(time.Since(start).Milliseconds())
